@@ -392,6 +392,21 @@ func runC16(p *core.Program, r *core.Report) {
 		}
 		return false
 	}
+	// functions of pkg/eval that install something into the Evaler themselves
+	// (a helper called after compilation counts like the store it performs)
+	storesEvaler := map[*ssa.Function]string{}
+	for _, fn := range p.FnsInPkg(pkgEval) {
+		core.Instrs(fn, func(ins ssa.Instruction) {
+			if st, ok := ins.(*ssa.Store); ok {
+				if fa, ok := st.Addr.(*ssa.FieldAddr); ok {
+					n, f := core.FieldName(fa)
+					if n != nil && n.Obj().Name() == "Evaler" && n.Obj().Pkg().Path() == pkgEval && !freshBase(fa.X) {
+						storesEvaler[fn] = f
+					}
+				}
+			}
+		})
+	}
 	nGate := 0
 	for _, fn := range p.FnsInPkg(pkgEval) {
 		if fn.Parent() != nil {
@@ -410,6 +425,11 @@ func runC16(p *core.Program, r *core.Report) {
 				case prepare:
 					sensitive = append(sensitive, ins)
 					what = append(what, "nsOp.prepare")
+				default:
+					if f, ok := storesEvaler[c.Call.StaticCallee()]; ok && c.Call.StaticCallee() != fn {
+						sensitive = append(sensitive, ins)
+						what = append(what, "store to Evaler."+f+" (through "+c.Call.StaticCallee().Name()+")")
+					}
 				}
 			}
 			if st, ok := ins.(*ssa.Store); ok {
